@@ -109,7 +109,7 @@ def radix64_judge(text, data):
     if "\r\n" in text:
         eol = "CRLF"
         if text.replace("\r\n", "").find("\n") >= 0 or text.replace("\r\n", "").find("\r") >= 0:
-            problems.append("mixed line endings")
+            problems.append(("mixed-line-endings", ""))
         lines = text.split("\r\n")
     elif "\n" in text:
         eol = "LF"
@@ -117,26 +117,26 @@ def radix64_judge(text, data):
     else:
         lines = [text]
     if len(lines) > 1 and any(l == "" for l in lines):
-        problems.append("empty line inside radix-64 data")
+        problems.append(("empty-line", ""))
     width = None
     for k, l in enumerate(lines):
         if len(l) > 76:
-            problems.append("line %d has %d characters (> 76)" % (k, len(l)))
+            problems.append(("line-longer-than-76", "line %d has %d characters" % (k, len(l))))
         if k < len(lines) - 1:
             if width is None:
                 width = len(l)
             elif len(l) != width:
-                problems.append("full lines of different length (%d vs %d)" % (len(l), width))
+                problems.append(("unequal-full-lines", "%d vs %d" % (len(l), width)))
             if len(l) % 4:
-                problems.append("full line length %d not divisible by 4" % len(l))
+                problems.append(("line-length-not-multiple-of-4", "length %d" % len(l)))
     if width is not None and len(lines[-1]) > width:
-        problems.append("last line longer than the full lines")
+        problems.append(("last-line-longer", ""))
     try:
         dec = radix64_decode_strict("".join(lines))
         if dec != data:
-            problems.append("decodes to different octets")
+            problems.append(("decodes-differently", ""))
     except Malformed as e:
-        problems.append(str(e))
+        problems.append(("not-decodable", str(e)))
     return problems, dict(width=width, eol=eol, lines=len(lines))
 
 
@@ -628,15 +628,29 @@ def subpacket(typ, critical, body):
     return length_new(len(body) + 1) + bytes([typ | (0x80 if critical else 0)]) + body
 
 
+def read_length_subpacket(buf, off):
+    """5.2.3.1: < 192 one octet; >= 192 and < 255 two octets; 255 five octets (no partial lengths)"""
+    if off >= len(buf):
+        raise Malformed("truncated subpacket length")
+    o = buf[off]
+    if o < 192:
+        return o, 1
+    if o < 255:
+        if off + 2 > len(buf):
+            raise Malformed("truncated two-octet subpacket length")
+        return ((o - 192) << 8) + buf[off + 1] + 192, 2
+    if off + 5 > len(buf):
+        raise Malformed("truncated five-octet subpacket length")
+    return int.from_bytes(buf[off + 1:off + 5], "big"), 5
+
+
 def read_subpackets(area):
-    """returns list of (type, critical, body, minimal_length_form)"""
+    """returns list of (type, critical, body, length_form_octets)"""
     out = []
     off = 0
     while off < len(area):
-        ln, hl, part = read_length_new(area, off)
-        if part:
-            raise Malformed("partial length in a subpacket")
-        minimal = length_new(ln) == bytes(area[off:off + hl])
+        ln, hl = read_length_subpacket(area, off)
+        minimal = hl
         off += hl
         if ln < 1 or off + ln > len(area):
             raise Malformed("subpacket length %d exceeds the area" % ln)
